@@ -12,6 +12,7 @@ import KrillModel.Drivers.RoaObj
 import KrillModel.Drivers.SysKeys
 import KrillModel.Drivers.SysStatus
 import KrillModel.Drivers.Proto
+import KrillModel.Drivers.RpTree
 
 def main (args : List String) : IO UInt32 := do
   match args with
@@ -32,4 +33,5 @@ def main (args : List String) : IO UInt32 := do
   | ["syskeys", prop] => KM.Drv.SysKeys.main prop; return 0
   | ["sysstatus"] => KM.Drv.SysStatus.main; return 0
   | ["proto"] => KM.Drv.Proto.main; return 0
+  | ["rptree"] => KM.Drv.RpTree.main; return 0
   | _ => IO.eprintln "usage: kmodel <stream>"; return 2
